@@ -4,12 +4,13 @@ import vlib, apiscen
 
 
 def enumerate_from_model():
-    """(op, jit, large, failAt) tuples = labels of the Create edges TLC explores from the initial state"""
+    """(op, jit, large, longKey, failAt) tuples = labels of the Create edges TLC explores from the initial state"""
     dot = os.path.join(vlib.WORK, 'c15', 'alloc.dot')
     r = vlib.tlc('RxAlloc', 'MCAlloc1.cfg', workers=1, timeout=300, extra=['-dump', 'dot,actionlabels', dot])
     cases = set()
-    for m in re.finditer(r'label="Create\(\\"o1\\",\\"(\w+)\\",\[jit \|-> (TRUE|FALSE), large \|-> (TRUE|FALSE)\],(\d+)\)"', open(dot).read()):
-        cases.add((m.group(1), m.group(2) == 'TRUE', m.group(3) == 'TRUE', int(m.group(4))))
+    for m in re.finditer(r'label="Create\(\\"o1\\",\\"(\w+)\\",\[([^\]]*)\],(\d+)\)"', open(dot).read()):
+        f = dict(re.findall(r'(\w+) \|-> (TRUE|FALSE)', m.group(2)))
+        cases.add((m.group(1), f.get('jit') == 'TRUE', f.get('large') == 'TRUE', f.get('key') == 'TRUE', int(m.group(3))))
     return r, sorted(cases)
 
 
@@ -31,7 +32,7 @@ def run():
     scens = []
     A = lambda **k: k
     i = 0
-    for (op, jit, large, k) in cases:
+    for (op, jit, large, longkey, k) in cases:
         variants = [0]
         if op == 'create_vm':
             variants = [0, 1] if not ck.thorough else [0, 1, 2, 3]      # light / full memory (+ hard AES / secure rotation)
@@ -53,7 +54,7 @@ def run():
                 pre = ['AllocCache c1 any any jit=%d' % (i % 2), 'InitCache c1 K1']
                 if full:
                     pre += ['AllocDataset d1 dm1 nchunks=1', 'InitDatasetChunk d1 c1 1']
-                call = ['CreateVm v1 %s %s %s v2=%d hard=%d secure=%d large=%d' % (kind, 'none' if full else 'c1', 'd1' if full else 'none', i % 2, hard, secure, lg)]
+                call = ['CreateVm v1 %s %s %s v2=%d hard=%d secure=%d large=%d' % (kind, 'none' if (full and not longkey) else 'c1', 'd1' if full else 'none', i % 2, hard, secure, lg)]      # (a full-memory VM may be given the cache as well: then it copies its key)
                 post = (['Hash v1 I1 key=K1'] if (not full or ck.thorough) else []) + ['DestroyVm v1'] + (['ReleaseDataset d1'] if full else []) + ['ReleaseCache c1']
             text = pre + ['FailAt %d' % k] + call
             # the failed call is followed by a fault-free one that must succeed (unless huge pages are required), and a clean teardown
@@ -66,10 +67,11 @@ def run():
                 text += post
                 # second cycle: repeated create/use/destroy does not grow the process
                 text += pre + call + post
-            scens.append({'text': '\n'.join(text) + '\n', 'case': (op, jit, large, k, var)})
-    tabs = apiscen.fresh_tables([(0, 0)], ['IL', 'CL', 'IF', 'CF'] if ck.thorough else ['IL', 'CL'], os.path.join(wd, 'fresh'))
+            scens.append({'text': '\n'.join(text) + '\n', 'case': (op, jit, large, k, var), 'ks': 5 if longkey else 0})
+    # ks 5: a 64-byte key, so that copying the key string into the VM is a heap request of its own (small-string buffer: 15 bytes)
+    tabs = apiscen.fresh_tables([(0, 0), (5, 0)], ['IL', 'CL', 'IF', 'CF'] if ck.thorough else ['IL', 'CL'], os.path.join(wd, 'fresh'))
     for s in scens:
-        s['data'], s['fresh'] = tabs[(0, 0)]
+        s['data'], s['fresh'] = tabs[(s['ks'], 0)]
     traces = apiscen.replay(scens, os.path.join(wd, 'replay'), os_log=True, watchdog=600)
     lines, group = [], []
     for j, t in enumerate(traces):
